@@ -31,7 +31,7 @@ CLAIMS = {
          "assets (known finding), termination of the name-uniquification loop is not proved. Bounded: all histories of <=3 API operations against an abstract reference model, random to 12.", '4 C05, 9.2(12)'),
  'C06': ('other', "Deductive: the rejection half that lives in model.py - _validate_association returns normally iff the association is new, every member is an asset of the model, no asset repeats "
          "inside a field and no (left, right) pair is already linked by an association of the same class (association_exists_between_assets inspects EVERY association of that class); "
-         "add_association raises iff not valid and leaves the model unchanged then. Bounded: the generated classes (classes_factory), defaults, type / multiplicity / range rejections, which are "
+         "add_association raises iff not valid and leaves the model unchanged then; 'no pair of assets is linked twice by associations of one class' and 'no asset repeats inside a field' are clauses of the representation invariant wf_model (M6, M3) that every mutator preserves. Bounded: the generated classes (classes_factory), defaults, type / multiplicity / range rejections, which are "
          "enforced by python_jsonschema_objects (assumed third party): all languages of a 2-type family + random 3-type languages.", '4 C06'),
  'C07': ('other', "Deductive (small part): Model.get_asset_by_id, which _from_dict uses to resolve the member ids of associations and entry points (returns a member with that id, None iff none). "
          "Bounded (the bulk): API-built and hand-written models x {json, yml, yaml}, save/load/modify/save/load sequences on non-canonical paths, defenses by name incl. 0.0 on Enabled defaults; "
